@@ -277,7 +277,8 @@ def validate(cases, deviations, procs=16, timeout=700, coverage=False, keep=None
     d = common.scratch_dir('vmcases')
     nchunks = max(1, min(procs, (len(cases) + 24) // 25))
     chunks = [cases[i::nchunks] for i in range(nchunks)]
-    stamp = '%d_%d' % (os.getpid(), int(time.time() * 1000) % 1000000)
+    import uuid
+    stamp = '%d_%s' % (os.getpid(), uuid.uuid4().hex[:10])
     paths = []
     for ci, ch in enumerate(chunks):
         path = os.path.join(d, 'cases_%s_%d.json' % (stamp, ci))
